@@ -65,6 +65,7 @@ type GenesisKnobs struct {
 	Eth1Share        int  // percent with ETH1 credentials
 	AboveShare       int  // percent with balance above max
 	BelowShare       int  // percent below max (inactive at genesis)
+	ForceKickstart   bool // the chain's own genesis comes from KickStartState
 	SameMultiset     bool // exactly 16 or 32 validators, all at the maximum (with AllMax)
 	ExactActive      int  // exactly this many validators at/above the maximum (active at genesis); a few inactive ones on top
 }
@@ -90,6 +91,9 @@ func MakeGenesisPlan(r *hx.Rng, sp *common.Spec, k GenesisKnobs) *GenesisPlan {
 		n = pick(r, 16, 32, 32)
 	}
 	p := &GenesisPlan{ViaEth1: r.Chance(50)}
+	if k.ForceKickstart {
+		p.ViaEth1 = false
+	}
 	copy(p.Eth1Hash[:], r.Bytes(32))
 	p.Eth1Time = sp.MIN_GENESIS_TIME + common.Timestamp(r.Intn(1000))
 	inc := sp.EFFECTIVE_BALANCE_INCREMENT
@@ -297,6 +301,10 @@ func badPubkey(r *hx.Rng) common.BLSPubkey {
 
 // GenesisCase builds one adversarial deposit list and records the outcome.
 func GenesisCase(rec *Recorder, bls *BLSTable, st *Stats, r *hx.Rng, sp *common.Spec, kind string) {
+	if kind == "kickstart_badpubkey" {
+		kickstartCase(rec, bls, st, r, sp)
+		return
+	}
 	var tree DepositTree
 	var hash common.Root
 	copy(hash[:], r.Bytes(32))
@@ -390,6 +398,23 @@ func GenesisCase(rec *Recorder, bls *BLSTable, st *Stats, r *hx.Rng, sp *common.
 				dds[i] = d
 			}
 		}
+		// the deposit domain is fork-agnostic (GENESIS_FORK_VERSION, zero root) whatever the fork schedule says about slot 0:
+		// new keys signed under ALTAIR_FORK_VERSION and under the version of the schedule at the genesis slot must be skipped
+		for j, ver := range []common.Version{sp.ALTAIR_FORK_VERSION, sp.ForkVersion(common.GENESIS_SLOT)} {
+			if ver == sp.GENESIS_FORK_VERSION {
+				continue
+			}
+			k := KeyNum(n + 1 + j)
+			dl := mk(k, sp.MAX_EFFECTIVE_BALANCE)
+			dom := common.ComputeDomain(common.DOMAIN_DEPOSIT, ver, common.Root{})
+			dl.Signature = bls.Sign1(k, common.ComputeSigningRoot(dl.MessageRoot(), dom))
+			pos := r.Intn(len(dds) + 1)
+			dds = append(dds[:pos:pos], append([]common.DepositData{dl}, dds[pos:]...)...)
+			st.Inc("genesis_deposit_signed_under_later_fork_version")
+			if sp.ALTAIR_FORK_EPOCH == 0 {
+				st.Inc("genesis_fork_at_epoch0_deposit_signed_under_later_version")
+			}
+		}
 		// a top-up with an invalid signature for an already accepted key must still count
 		d := mk(KeyNum(1), inc)
 		copy(d.Signature[:], r.Bytes(96))
@@ -441,6 +466,12 @@ func GenesisCase(rec *Recorder, bls *BLSTable, st *Stats, r *hx.Rng, sp *common.
 	}
 	stv, _, id := genesisRecord(rec, sp, hash, t, deps, "kind="+kind)
 	st.Inc("genesis_case_" + kind)
+	if sp.ALTAIR_FORK_EPOCH == 0 {
+		st.Inc("genesis_cases_with_fork_at_epoch_0")
+		if stv != nil {
+			st.Inc("genesis_cases_with_fork_at_epoch_0_ok")
+		}
+	}
 	if stv == nil {
 		st.Inc("genesis_case_err")
 	} else {
@@ -449,4 +480,103 @@ func GenesisCase(rec *Recorder, bls *BLSTable, st *Stats, r *hx.Rng, sp *common.
 	}
 }
 
-var GenesisKinds = []string{"valid", "amounts", "topups", "badsig", "badpubkey", "toofew", "inactive", "early", "badproof", "zeroamount"}
+// kickstartCase: a `kickstart` record whose validator list has entries with an undecodable public key at the beginning, in the
+// middle and at the end. Such an entry registers nobody but it IS a deposit: a leaf of the deposit tree, counted in
+// eth1_data.deposit_count and eth1_deposit_index.
+func kickstartCase(rec *Recorder, bls *BLSTable, st *Stats, r *hx.Rng, sp *common.Spec) {
+	var hash common.Root
+	copy(hash[:], r.Bytes(32))
+	gt := sp.MIN_GENESIS_TIME + sp.GENESIS_DELAY + common.Timestamp(r.Intn(500))
+	n := int(sp.SLOTS_PER_EPOCH) + 4 + r.Intn(12)
+	undecodable := func(which int, key KeyNum) common.BLSPubkey {
+		var p common.BLSPubkey
+		switch which % 4 {
+		case 0: // 48 zero bytes (an uninitialised entry)
+		case 1:
+			for i := range p {
+				p[i] = 0xff
+			}
+		case 2: // a valid key with the flag bits mangled (compression flag cleared)
+			p = PubOf(key)
+			p[0] &= 0x1f
+		default: // a valid key marked "infinity" although x is not zero
+			p = PubOf(key)
+			p[0] |= 0x40
+		}
+		if _, err := p.Pubkey(); err == nil {
+			p = common.BLSPubkey{} // (never expected) fall back to the zero bytes
+		}
+		return p
+	}
+	type entry struct {
+		pub common.BLSPubkey
+		g   GenVal
+		bal common.Gwei
+	}
+	var es []entry
+	for i := 0; i < n; i++ {
+		k := KeyNum(i + 1)
+		g := GenVal{Key: k, WKey: WithdrawalKeyBase + k}
+		if r.Chance(30) {
+			g.WKey, g.Addr = 0, addrOf(k)
+		}
+		bal := sp.MAX_EFFECTIVE_BALANCE
+		if r.Chance(15) {
+			bal -= sp.EFFECTIVE_BALANCE_INCREMENT * common.Gwei(1+r.Intn(3))
+		}
+		es = append(es, entry{bls.UseKey(k), g, bal})
+	}
+	bad := 0
+	ins := func(pos int) {
+		k := KeyNum(1000 + bad)
+		which := bad // the first four: one of each kind
+		if bad >= 4 {
+			which = r.Intn(4)
+		}
+		e := entry{undecodable(which, k), GenVal{Key: k, Addr: addrOf(k)}, sp.MAX_EFFECTIVE_BALANCE}
+		bad++
+		es = append(es[:pos:pos], append([]entry{e}, es[pos:]...)...)
+	}
+	ins(0)
+	ins(len(es) / 2)
+	ins(len(es))
+	ins(len(es))
+	for k := r.Intn(3); k > 0; k-- {
+		ins(r.Intn(len(es) + 1))
+	}
+	kv := make([]phase0.KickstartValidatorData, len(es))
+	var raw bytes.Buffer
+	for i, e := range es {
+		kv[i] = phase0.KickstartValidatorData{Pubkey: e.pub, WithdrawalCredentials: e.g.Credentials(), Balance: e.bal}
+		raw.Write(kv[i].Pubkey[:])
+		raw.Write(kv[i].WithdrawalCredentials[:])
+		var b8 [8]byte
+		binary.LittleEndian.PutUint64(b8[:], uint64(e.bal))
+		raw.Write(b8[:])
+	}
+	file := rec.Other("k", "kickstart", raw.Bytes())
+	var stv *phase0.BeaconStateView
+	var err error
+	panicked, _ := hx.Catch(func() { stv, _, err = phase0.KickStartState(specWith(sp, nil), hash, gt, kv) })
+	st.Inc("genesis_case_kickstart_badpubkey")
+	st.Add("kickstart_entries_with_undecodable_pubkey", bad)
+	switch {
+	case panicked:
+		rec.Line("kickstart %s %d %s PANIC kind=kickstart_badpubkey", hex.EncodeToString(hash[:]), gt, file)
+		st.Inc("genesis_case_err")
+	case err != nil:
+		rec.Line("kickstart %s %d %s ERR kind=kickstart_badpubkey", hex.EncodeToString(hash[:]), gt, file)
+		rec.Comment("error: " + err.Error())
+		st.Inc("genesis_case_err")
+	default:
+		id := rec.State(stv)
+		root := StateRoot(stv)
+		rec.Line("kickstart %s %d %s %s root=%s kind=kickstart_badpubkey", hex.EncodeToString(hash[:]), gt, file, id, hex.EncodeToString(root[:]))
+		st.Inc("genesis_case_ok")
+		if e1, e := stv.Eth1Data(); e == nil && uint64(e1.DepositCount) == uint64(len(es)) {
+			st.Inc("kickstart_undecodable_pubkeys_counted_as_deposits")
+		}
+	}
+}
+
+var GenesisKinds = []string{"valid", "amounts", "topups", "badsig", "badpubkey", "toofew", "inactive", "early", "badproof", "zeroamount", "kickstart_badpubkey"}
